@@ -18,7 +18,10 @@ theorem verifySignature_ok {W : World} {pk : PubKey} {alg : Cbor} {sig data : By
   | verify s =>
     simp only [SigPlan.verify.injEq, exists_eq_left']
     rw [runM_sigVerifyM_bind]
-    cases h2 : W.sigVerify pk s sig data <;> simp
+    cases h2 : W.sigVerify pk s sig data with
+    | valid => simp
+    | invalid => simp
+    | raised c => rcases sigSeen_raised_cases s c with h | h <;> simp [h]
 
 theorem loadCoseKey_ok {W : World} {k : CoseKey} {pk : PubKey} :
     runM W (loadCoseKey k) = .ok pk ↔ coseToPubKey k = .ok pk ∧ W.keyLoad pk = true := by
